@@ -78,6 +78,11 @@ func NewSession(kind string, timeoutMs int) (*Session, error) {
 		s.send(fmt.Sprintf("(set-option :timeout %d)", timeoutMs))
 		s.send("(set-option :model.completion true)")
 	}
+	if StrAsInt {
+		s.send("(declare-fun uf_concat (Int Int) Int)")
+		s.send("(declare-fun uf_strlen (Int) Int)")
+		s.send("(assert (= (uf_strlen 0) 0))")
+	}
 	if errs := s.sync(); len(errs) > 0 {
 		return nil, fmt.Errorf("solver init: %v", errs)
 	}
